@@ -36,6 +36,10 @@ def build_doc(ad, D=None, style_catalogue=None):
     doc.put_initial_value(sp.StyleProperties.Display, disp_val[ad["idisp"]])
   for prop, tok in ad.get("initials", []):
     doc.put_initial_value(getattr(sp.StyleProperties, prop), style_catalogue[tok])
+  if ad.get("ishowbg"):
+    # <initial tts:showBackground="whenActive"/>: what the made-up region of a document without regions computes; declared
+    # regions whose rbg is "always" say so themselves (rbg stays the computed value)
+    doc.put_initial_value(sp.StyleProperties.ShowBackground, sp.ShowBackgroundType.whenActive)
   if "cell" in ad:
     doc.set_cell_resolution(m.CellResolutionType(rows=ad["cell"][0], columns=ad["cell"][1]))
   if "px" in ad:
@@ -44,7 +48,7 @@ def build_doc(ad, D=None, style_catalogue=None):
     doc.set_lang(ad["lang"])
   regions = []
   for r in range(ad["nr"]):
-    reg = m.Region("r%d" % (r + 1), doc)
+    reg = m.Region(region_name(ad, r + 1), doc)
     # t0 (whole seconds): the whole timeline is shifted by t0 - the body and every region begin t0 later; snapshots are then
     # asked for at t0 + t and reported times have t0 taken off again (TTML timing is translation invariant), so that TLC
     # sees the same small tick numbers while the implementation computes with large and finely resolved rationals
@@ -56,10 +60,13 @@ def build_doc(ad, D=None, style_catalogue=None):
       reg.set_style(sp.StyleProperties.Display, disp_val[ad["rdisp"][r]])
     if ad["rbg"][r] == "whenActive":
       reg.set_style(sp.StyleProperties.ShowBackground, sp.ShowBackgroundType.whenActive)
+    elif ad.get("ishowbg"):
+      reg.set_style(sp.StyleProperties.ShowBackground, sp.ShowBackgroundType.always)
     for st in ad["ranim"][r]:
       reg.add_animation_step(m.DiscreteAnimationStep(sp.StyleProperties.Display, frac(st["b"], D), frac(st["e"], D), disp_val[st["v"]]))
     for prop, tok in (ad.get("rstyles") or [[]] * ad["nr"])[r]:
-      reg.set_style(getattr(sp.StyleProperties, prop), style_catalogue[tok])
+      reg.set_style(getattr(sp.StyleProperties, prop), _own(style_catalogue[tok], (r, prop)))
+      _rejected_attempt(reg, getattr(sp.StyleProperties, prop), (r, prop, tok))
     for prop, tok, sb, se in (ad.get("ranim_styles") or [[]] * ad["nr"])[r]:
       reg.add_animation_step(m.DiscreteAnimationStep(getattr(sp.StyleProperties, prop), frac(sb, D), frac(se, D), style_catalogue[tok]))
     doc.put_region(reg)
@@ -92,7 +99,8 @@ def build_doc(ad, D=None, style_catalogue=None):
       if ad.get("space") and ad["space"][k]:
         e.set_space(m.WhiteSpaceHandling.PRESERVE if ad["space"][k] == "preserve" else m.WhiteSpaceHandling.DEFAULT)
       for prop, tok in (ad.get("styles") or [[]] * ad["n"])[k]:
-        e.set_style(getattr(sp.StyleProperties, prop), style_catalogue[tok])
+        e.set_style(getattr(sp.StyleProperties, prop), _own(style_catalogue[tok], (k, prop)))
+        _rejected_attempt(e, getattr(sp.StyleProperties, prop), (k, prop, tok))
       for prop, tok, sb, se in (ad.get("anim_styles") or [[]] * ad["n"])[k]:
         e.add_animation_step(m.DiscreteAnimationStep(getattr(sp.StyleProperties, prop), frac(sb, D), frac(se, D), style_catalogue[tok]))
     elems.append(e)
@@ -148,15 +156,50 @@ def _node_k(e):
   return 0
 
 
-def project_isd(isd, detail=False):
-  """Projection of an ISD: list of regions in iteration order."""
+def _own(value, key):
+  """One time in two an object of its own, equal to the catalogue's value (which other elements share): style values are
+  compared by value, whichever object holds them."""
+  import copy
+  import zlib
+  return copy.deepcopy(value) if zlib.crc32(repr(key).encode()) % 2 else value
+
+
+def _rejected_attempt(element, prop, key):
+  """One time in four: a further set_style on the same property with a value that the property does not admit.  The call is
+  rejected (ValueError) and the caller goes on, as imsc.reader does; the element keeps the value it had."""
+  import zlib
+  if zlib.crc32(repr(key).encode()) % 4:
+    return
+  for bad in ("no such value", 12345.678, ("x", 1)):
+    if not prop.validate(bad):
+      try:
+        element.set_style(prop, bad)
+      except ValueError:
+        pass
+      return
+
+
+def region_name(ad, k):
+  """Identifier of the k-th declared region: r<k>, or - "reserved_ids" - an identifier that the library uses for a purpose
+  of its own (ISD.DEFAULT_REGION_ID names the region it makes up for documents WITHOUT regions): ids are the author's."""
+  if ad.get("reserved_ids") and k == 1:
+    return "default_region"
+  return "r%d" % k
+
+
+def region_names(ad):
+  return {region_name(ad, k): k for k in range(1, ad.get("nr", 0) + 1)}
+
+
+def project_isd(isd, detail=False, names=None):
+  """Projection of an ISD: list of regions in iteration order (names: identifier -> index of the declared regions)."""
   import ttconv.model as m
   import ttconv.style_properties as sp
   from ttconv.isd import ISD
   out = []
   for region in isd.iter_regions():
     rid = region.get_id()
-    ridx = int(rid[1:]) if rid and rid[0] == "r" and rid[1:].isdigit() else 0
+    ridx = names[rid] if names and rid in names else int(rid[1:]) if rid and rid[0] == "r" and rid[1:].isdigit() else 0
     leaves = []
     containers = []
     tree = []
